@@ -178,7 +178,7 @@ def specNote (v : VSt) (goid : Nat) (point : String) (wid : Nat) (n : Nat) : VSt
   | _ => (v, "?ok")
 
 /-- which property a specification verdict belongs to -/
-def verdictFor (mode spec : String) : String :=
+def verdictFor (mode spec : String) (restarted : Bool) : String :=
   if spec = "?ok" then spec else
   let has (w : String) : Bool := (spec.splitOn w).length > 1
   let c01 := has "two-callbacks-of-group"
@@ -187,7 +187,7 @@ def verdictFor (mode spec : String) : String :=
   match mode with
   | "pool01" => if c01 then spec else "?ok"
   | "pool02" => if c02 then spec else "?ok"
-  | "pool03" => if c03 then spec else "?ok"
+  | "pool03" => if c03 ∨ (restarted ∧ (c01 ∨ c02)) then spec else "?ok"   -- after a restart all guarantees must hold again
   | _ => spec
 
 def run (mode : String) (v : VSt) (args : List Str) : VSt × String × String × String :=
@@ -205,7 +205,7 @@ def run (mode : String) (v : VSt) (args : List Str) : VSt × String × String ×
     let mcol := match v.rejected with
       | none => "ok"
       | some why => if was.isSome then "skip" else "reject:" ++ why
-    (v, mcol, verdictFor mode spec, pt)
+    (v, mcol, verdictFor mode spec (v.m.epoch > 1), pt)
   | _ => (v, "bad-op", "-", "bad")
 
 end GoRes.Driver.Pool
